@@ -125,13 +125,16 @@ where
                 // Clone the sender's credential and sender for validation before consuming
                 let sender_credential = processed_mls_message.credential().clone();
                 let message_sender = processed_mls_message.sender().clone();
+                // The epoch the message was created in. OpenMLS also decrypts application
+                // messages of recent past epochs, so this can be older than the group's epoch.
+                let message_epoch = processed_mls_message.epoch().as_u64();
 
                 match processed_mls_message.into_content() {
                     ProcessedMessageContent::ApplicationMessage(application_message) => {
                         Ok(MessageProcessingResult::ApplicationMessage(
                             self.process_application_message(
                                 group,
-                                mls_group.epoch().as_u64(),
+                                message_epoch,
                                 event,
                                 application_message,
                                 sender_credential,
